@@ -84,7 +84,7 @@ Init ==
   /\ hp = [ objAt |-> [a \in Addrs |-> IF a \in Conts THEN a ELSE 0],   \* object currently (or last) at the address
             free  |-> {a \in Addrs : a \notin Conts},
             next  |-> Cardinality(Conts) + 1 ]
-  /\ ab = [ Abs!InitState EXCEPT
+  /\ ab = [log |-> <<>>] @@ [ Abs!InitState EXCEPT
               !.cell = [c \in Conts |-> c], !.known = Conts, !.cnt = [o \in Conts |-> 1],
               !.parent = [o \in Conts |-> -1], !.ever = [c \in Conts |-> {c}] ]
   /\ err = ""
@@ -104,7 +104,11 @@ Fold(s, e, evs) ==
   ELSE LET v == Abs!Verdict(s, Head(evs)) IN
        IF e # "" THEN <<s, e>>
        ELSE IF v # Abs!OK THEN <<s, v[1] \o ": " \o v[2]>>
-       ELSE Fold(Abs!Effect(s, Head(evs)), e, Tail(evs))
+       ELSE LET s1 == Abs!Effect(s, Head(evs))
+                \* (schedule extraction only) what every operation returned, for the comparison with the real run
+                s2 == IF Hist = "all" /\ Head(evs).e = "ret"
+                      THEN [s1 EXCEPT !.log = Append(@, <<Head(evs).t, Head(evs).op, Head(evs).v>>)] ELSE s1
+            IN Fold(s2, e, Tail(evs))
 Emit(evs) == LET r == Fold(ab, err, evs) IN ab' = r[1] /\ err' = r[2]
 NoEmit == UNCHANGED <<ab, err>>
 Fail(msg) == /\ err' = (IF err = "" THEN msg ELSE err) /\ UNCHANGED ab
